@@ -1276,6 +1276,8 @@ def poly_rules(prog, chk, pid):
                 return to_poly(l, env) * to_poly(r, env)
             if op == "Pow" and is_const(unsnap(r)):
                 return to_poly(l, env) ** cval(unsnap(r))
+            if op == "LShift" and is_const(unsnap(r)) and isinstance(cval(unsnap(r)), int) and 0 <= cval(unsnap(r)) <= 16:
+                return to_poly(l, env) * (2 ** cval(unsnap(r)))  # x << k is x * 2**k for every integer x
         if t.op == "un" and t.args[0] == "USub":
             return -to_poly(t.args[1], env)
         mc = meth_call(t)
